@@ -166,7 +166,7 @@ class C06(Check):
             'distinct by case.')
     TRUST = ['str.lower() is modelled for ASCII letters only; generators use ASCII letters plus uncased Unicode',
              'lxml parsing of the reply (error fields are taken from the parsed tree: environment)']
-    ASSUMPTIONS = ['a reply with both <ok/> and rpc-error is left open (statement silent); with several errors, those whose message is exempt do '
+    ASSUMPTIONS = ['a reply with both <ok/> and rpc-error: the code reports no errors (known finding C06:ok-element-hides-rpc-errors; theorems carry the hypothesis "no <ok/> child"); with several errors, those whose message is exempt do '
                    'not count and the decision is taken on the others']
 
     def cases(self, rng, tier):
@@ -371,6 +371,8 @@ class C06(Check):
         if case.get('kind') == 'connseq':
             for k, (st, i) in enumerate(zip(case['steps'], io['steps'])):
                 r = self.oracle(st, i)
+                if r and r[0] == 'C06:ok-element-hides-rpc-errors':
+                    return r            # the known finding is the same on every path
                 if r:
                     return (r[0] + '@connect-history', 'connect %d of %d (the caller hands the same %s dict to every connect): %s' % (k + 1, len(case['steps']), case['share'], r[1]))
             return None
@@ -396,7 +398,12 @@ class C06(Check):
             if io['raised'] is False and io['ok'] != (len(errs) == 0):
                 return ('C06:ok-flag', 'ok=%r with %d rpc-errors' % (io['ok'], len(errs)))
         else:
-            return None      # statement silent
+            # <ok/> next to rpc-errors (what e.g. Junos sends for a commit with warnings): the statement says `ok` iff NO rpc-error and that the
+            # error list mirrors them; the parser stops looking for errors once it has seen <ok/> (known finding, see known_findings.json)
+            if errs and io['raised'] is False and (io['ok'] or len(rows) != len(errs)):
+                return ('C06:ok-element-hides-rpc-errors', 'reply with <ok/> AND %d rpc-error(s) (severities %s): ok=%r, error list has %d entries' % (
+                    len(errs), sevs, io['ok'], len(rows)))
+            return None
         # --- raise decision ---
         ex = [spec_exempt(pats, m) for m in msgs]
         # an error whose message is exempt does not count; the decision is taken on the others
